@@ -392,7 +392,9 @@ fn gen_knn(rng: &mut Rng, cubic_only: bool, max_n: usize) -> KnnCase {
     // placement families: uniform, clumps, few particles in a fine grid (empty cells
     // and whole empty rings), lattices (exact distance ties, particles exactly on
     // cell boundaries), everything in one corner cell
-    let placement = *rng.pick(&["uniform", "uniform", "clustered", "sparse", "lattice", "corner"]);
+    // ... and particles a few ulps below the upper faces of the half-open box (the last cell layer,
+    // where an index computed with a rounded-up factor steps out of the grid)
+    let placement = *rng.pick(&["uniform", "uniform", "clustered", "sparse", "lattice", "corner", "upper_faces"]);
     let n = match placement {
         "sparse" => 2 + rng.below(12) as usize,
         _ => 2 + rng.below(max_n as u64 - 1) as usize,
@@ -412,6 +414,28 @@ fn gen_knn(rng: &mut Rng, cubic_only: bool, max_n: usize) -> KnnCase {
             DVec3::new(rng.f64(), rng.f64(), rng.f64())
         };
         let mut p = anchor + u * width;
+        if placement == "upper_faces" {
+            for a in 0..3 {
+                if rng.chance(0.45) {
+                    // the largest coordinates whose offset from the anchor still rounds below the width
+                    let mut x = anchor[a] + width[a];
+                    let steps = 1 + rng.below(3);
+                    let mut done = 0;
+                    for _ in 0..64 {
+                        x = f64::from_bits(if x > 0.0 { x.to_bits() - 1 } else if x < 0.0 { x.to_bits() + 1 } else { (-f64::MIN_POSITIVE).to_bits() });
+                        if x - anchor[a] < width[a] && x < anchor[a] + width[a] {
+                            done += 1;
+                            if done >= steps {
+                                break;
+                            }
+                        }
+                    }
+                    if x - anchor[a] < width[a] && x >= anchor[a] {
+                        p[a] = x;
+                    }
+                }
+            }
+        }
         // stay inside the half-open box
         for a in 0..3 {
             if p[a] >= anchor[a] + width[a] {
